@@ -596,36 +596,48 @@ class atom(boolean.AndRestriction):
         # package-like object to pass to these functions (all that is
         # needed is a version and revision attr).
 
+        def glob_match(glob, fullver):
+            # same rule as the =* restriction: prefix on a component boundary
+            return restricts.VersionGlobMatch(glob).match(fullver)
+
         # If one of us is an exact match we intersect if the other matches it:
         if self.op == "=":
             if other.op == "=*":
-                return self.fullver.startswith(other.fullver)
+                return glob_match(other.fullver, self.fullver)
             return restricts.VersionMatch(
                 other.op, other.version, other.revision
             ).match(self)
         if other.op == "=":
             if self.op == "=*":
-                return other.fullver.startswith(self.fullver)
+                return glob_match(self.fullver, other.fullver)
             return restricts.VersionMatch(self.op, self.version, self.revision).match(
                 other
             )
 
-        # If we are both ~ matches we match if we are identical:
+        # If we are both ~ matches we match if our versions are equal
+        # (which they can be without being spelled identically):
         if self.op == other.op == "~":
-            return self.version == other.version and self.revision == other.revision
+            return cpv.ver_cmp(self.version, None, other.version, None) == 0
 
         # If we are both glob matches we match if one of us matches the other.
         if self.op == other.op == "=*":
-            return self.fullver.startswith(other.fullver) or other.fullver.startswith(
-                self.fullver
+            return glob_match(other.fullver, self.fullver) or glob_match(
+                self.fullver, other.fullver
             )
 
-        # If one of us is a glob match and the other a ~ we match if the glob
-        # matches the ~ (ignoring a revision on the glob):
+        # If one of us is a glob match and the other a ~ we match if the ~
+        # matches the glob's own version, or (a glob with a revision matches
+        # nothing but itself) if the glob matches the ~ version:
         if self.op == "=*" and other.op == "~":
-            return other.fullver.startswith(self.version)
-        if other.op == "=*" and self.op == "~":
-            return self.fullver.startswith(other.version)
+            glob, tilde = self, other
+        elif other.op == "=*" and self.op == "~":
+            glob, tilde = other, self
+        else:
+            glob = None
+        if glob is not None:
+            if restricts.VersionMatch("~", tilde.version).match(glob):
+                return True
+            return not glob.revision and glob_match(glob.fullver, tilde.version)
 
         # If we get here at least one of us is a <, <=, > or >=:
         if self.op in ("<", "<=", ">", ">="):
@@ -638,11 +650,23 @@ class atom(boolean.AndRestriction):
             # we would have matched above). We intersect if we both
             # match the other's endpoint (just checking one endpoint
             # is not enough, it would give a false positive on <=2 vs >2)
-            return restricts.VersionMatch(
-                other.op, other.version, other.revision
-            ).match(ranged) and restricts.VersionMatch(
-                ranged.op, ranged.version, ranged.revision
-            ).match(other)
+            if not (
+                restricts.VersionMatch(other.op, other.version, other.revision).match(
+                    ranged
+                )
+                and restricts.VersionMatch(
+                    ranged.op, ranged.version, ranged.revision
+                ).match(other)
+            ):
+                return False
+            # Two strict bounds on consecutive revisions of one version
+            # (>1-r1 and <1-r2) have nothing in between.
+            if (
+                len(ranged.op) == len(other.op) == 1
+                and cpv.ver_cmp(ranged.version, None, other.version, None) == 0
+            ):
+                return abs(int(ranged.revision or 0) - int(other.revision or 0)) != 1
+            return True
 
         if other.op == "~":
             # Other definitely matches its own version. If ranged also
@@ -676,6 +700,7 @@ class atom(boolean.AndRestriction):
 
                 # If other.revision is not None or 0 then other does not match
                 # anything smaller than its own fullver:
+                # (nor, matching on component boundaries, anything else).
                 if other.revision:
                     return False
 
@@ -687,18 +712,22 @@ class atom(boolean.AndRestriction):
                 # If and only if other also matches ranged then
                 # ranged will also match one of those smaller packages.
                 # XXX (I think, need to try harder to verify this.)
-                return ranged.fullver.startswith(other.version)
+                return glob_match(other.version, ranged.fullver)
             else:
                 # Remaining cases where this intersects: there is a
                 # package greater than ranged.fullver and
                 # other.fullver that they both match.
 
+                # A glob with a revision matches nothing but itself:
+                if other.revision:
+                    return False
+
                 # We can always construct a package greater than
-                # other.fullver by adding a digit to it.
+                # other.fullver by adding a component to it.
                 # If and only if other also matches ranged then
                 # ranged will match such a larger package
                 # XXX (I think, need to try harder to verify this.)
-                return ranged.fullver.startswith(other.version)
+                return glob_match(other.version, ranged.fullver)
 
         # Handled all possible ops.
         raise NotImplementedError(
